@@ -4,7 +4,9 @@ import StorageModel.C04.Model
   back-reference maps, no cursors, no fuel).  Back-reference sets are *derived* from the tables.
 
     * an A entity may be written only if each fk value it (newly) carries names an existing target
-      — or is null/empty and the field is nullable;
+      — or is null/empty and the field is nullable; this holds whichever store the write goes through
+      (A itself, or its child store C — a create through C over an existing A entity is a write of
+      that entity and judged like a create: every reference it carries must be valid);
     * the back-reference set of a target is, by definition, the set of entities referencing it;
     * deleting an A entity removes it together with everything that transitively refers to it
       through `boss` (cascade) and nothing else;
@@ -76,6 +78,11 @@ def specDeleteB (σ : Schema) (id : Bytes) (s : SSt) : CB → SRes
     if σ.depCascade then .ok { s with as := removeAll s.as (closure s.as refs) }
     else if refs ≠ [] then .error .refExists else .ok s
 
+def hasChild (as : Map EntA) (id : Bytes) : Bool :=
+  match as.lookup id with
+  | some e => e.ext.isSome
+  | none => false
+
 def specApply (σ : Schema) (s : SSt) : Op → SRes
   | .createB id =>
     if id = [] ∨ s.bs.contains id then .error .other else .ok { s with bs := s.bs.insert id () }
@@ -88,8 +95,26 @@ def specApply (σ : Schema) (s : SSt) : Op → SRes
       | some cur =>
         specWrite σ false { owner := evalVal cur.owner, boss := evalVal cur.boss, dep := evalVal cur.dep } s id
           { owner := if mo then e.owner else cur.owner, boss := if mb then e.boss else cur.boss,
-            dep := if md then e.dep else cur.dep }
+            dep := if md then e.dep else cur.dep, ext := cur.ext }
   | .deleteA id =>
+    if s.as.contains id then .ok { s with as := removeAll s.as (closure s.as [id]) } else .error .notFound
+  | .createC id e tag =>
+    -- the child store refuses only an id for which child data exists already
+    if id = [] ∨ hasChild s.as id then .error .other
+    else specWrite σ true {} s id { owner := e.owner, boss := e.boss, dep := e.dep, ext := some tag }
+  | .updateC id e tag mo mb md mt =>
+    if id = [] then .error .other
+    else match s.as.lookup id with
+      | none => .error .notFound
+      | some cur =>
+        match cur.ext with
+        | none => .error .notFound                              -- not an entity of the child store
+        | some curTag =>
+          specWrite σ false { owner := evalVal cur.owner, boss := evalVal cur.boss, dep := evalVal cur.dep } s id
+            { owner := if mo then e.owner else cur.owner, boss := if mb then e.boss else cur.boss,
+              dep := if md then e.dep else cur.dep, ext := some (if mt then tag else curTag) }
+  | .deleteC id =>
+    -- a delete through the child store is a delete of the entity
     if s.as.contains id then .ok { s with as := removeAll s.as (closure s.as [id]) } else .error .notFound
   | .deleteB id =>
     if s.bs.contains id then do
